@@ -1,10 +1,12 @@
 package main
 
 import (
+	"bytes"
 	"encoding/json"
 	"fmt"
 	"os"
 	"path/filepath"
+	"syscall"
 	"testing"
 
 	"github.com/tsenart/vegeta/v12/internal/zzverif/vgen"
@@ -21,6 +23,7 @@ type c08Chain struct {
 	Start    string   // encoding of the initial file
 	Chain    []string // --to of each encode step
 	Existing []int    // size of a file that already exists at the output path of step i (0 = none): stale content must not survive
+	FIFO     bool     // the first input is a named pipe fed in odd-sized chunks (what `vegeta attack | ...` or process substitution gives)
 }
 
 func runC08Chain(c c08Chain) error {
@@ -32,6 +35,32 @@ func runC08Chain(c c08Chain) error {
 	cur, err := writeResults(dir, "step0."+c.Start, c.Start, c.Results)
 	if err != nil {
 		return err
+	}
+	if c.FIFO {
+		data, err := os.ReadFile(cur)
+		if err != nil {
+			return err
+		}
+		fifo := filepath.Join(dir, "pipe")
+		if err := syscall.Mkfifo(fifo, 0o600); err != nil {
+			return fmt.Errorf("mkfifo: %v", err)
+		}
+		go func() { // the writer side: odd chunk sizes, closed at the end
+			w, err := os.OpenFile(fifo, os.O_WRONLY, 0)
+			if err != nil {
+				return
+			}
+			defer w.Close()
+			for off, n := 0, 1; off < len(data); off, n = off+n, n*3+1 {
+				if off+n > len(data) {
+					n = len(data) - off
+				}
+				if _, err := w.Write(data[off : off+n]); err != nil {
+					return
+				}
+			}
+		}()
+		cur = fifo
 	}
 	last := c.Start
 	for i, to := range c.Chain {
@@ -72,6 +101,7 @@ func TestC08EncodeChain(t *testing.T) {
 		c := c08Chain{Start: rapid.SampledFrom(formats).Draw(t, "start")}
 		c.Results = vgen.Results(t, "rs", 1, 16, vgen.ResultOpts{AllowLargeBody: rapid.IntRange(0, 4).Draw(t, "big") == 0})
 		c.Chain = rapid.SliceOfN(rapid.SampledFrom(formats), 1, 4).Draw(t, "chain")
+		c.FIFO = rapid.IntRange(0, 4).Draw(t, "fifo") == 0
 		if rapid.IntRange(0, 2).Draw(t, "reuse") == 0 {
 			c.Existing = rapid.SliceOfN(rapid.SampledFrom([]int{0, 1, 100000}), len(c.Chain), len(c.Chain)).Draw(t, "existing")
 		}
@@ -91,4 +121,98 @@ func TestC08EncodeChain(t *testing.T) {
 	})
 }
 
-func init() { vh.RegisterReplay("C08.chain", vh.Replayer(runC08Chain)) }
+// ---------------------------------------------------------------- detection by the commands
+
+// Files written by another producer of the documented layouts (white space in front of JSON
+// objects, every CSV field quoted) and files in none of the formats, given to the encode command.
+type c08Det struct {
+	Results []vegeta.Result
+	Kind    string // json-ws | csv-quoted | garbage
+	Garbage []byte
+	To      string
+}
+
+func runC08DetectCmd(c c08Det) error {
+	dir, err := os.MkdirTemp("", "c08d")
+	if err != nil {
+		return err
+	}
+	defer os.RemoveAll(dir)
+	var data []byte
+	switch c.Kind {
+	case "json-ws":
+		data, err = vgen.WriteJSONDocumentedWS(c.Results, " \t")
+	case "csv-quoted":
+		data = vgen.WriteCSVDocumentedQ(c.Results, false, true)
+	default:
+		data = c.Garbage
+	}
+	if err != nil {
+		return err
+	}
+	in := filepath.Join(dir, "input")
+	if err := os.WriteFile(in, data, 0o644); err != nil {
+		return err
+	}
+	out := filepath.Join(dir, "out")
+	var eerr error
+	if perr := vh.Try(func() { eerr = encode([]string{in}, c.To, out) }); perr != nil {
+		return fmt.Errorf("encode panics on a %s input: %v", c.Kind, perr)
+	}
+	if c.Kind == "garbage" {
+		// DecoderFor(x) != nil  <=>  some explicit decoder reads a first record of x (checked by the library unit);
+		// here: an input no decoder can read must make the command fail, not produce a result file from it
+		for _, codec := range vgen.Codecs {
+			var r vegeta.Result
+			if codec.Dec(bytes.NewReader(data)).Decode(&r) == nil {
+				return nil // not garbage after all
+			}
+		}
+		if eerr == nil {
+			return fmt.Errorf("encode accepted an input that is in none of the formats (%q)", truncS(data))
+		}
+		return nil
+	}
+	if eerr != nil {
+		return fmt.Errorf("encode of a %s file in the documented layout (%q...): %v", c.Kind, truncS(data), eerr)
+	}
+	got, err := readResults(out, c.To, len(c.Results)+1)
+	if err != nil {
+		return err
+	}
+	if d := vgen.DiffResults(c.Results, got); d != "" {
+		return fmt.Errorf("encode of a %s file: %s", c.Kind, d)
+	}
+	return nil
+}
+
+func truncS(b []byte) string {
+	if len(b) > 60 {
+		return string(b[:60])
+	}
+	return string(b)
+}
+
+func TestC08DetectCmd(t *testing.T) {
+	vh.Check(t, 100, 3000, func(t *rapid.T) {
+		c := c08Det{Kind: rapid.SampledFrom([]string{"json-ws", "csv-quoted", "garbage"}).Draw(t, "kind"), To: rapid.SampledFrom([]string{"gob", "csv", "json"}).Draw(t, "to")}
+		if c.Kind == "garbage" {
+			c.Garbage = rapid.OneOf(rapid.SliceOfN(rapid.Byte(), 1, 100), rapid.SampledFrom([][]byte{[]byte("{}\n"), []byte("hello world\n"), []byte("1,2,3\n"), []byte("{\"attack\": 5}\n"), []byte("\x00\x01\x02"), []byte("12345\n")})).Draw(t, "garbage")
+		} else {
+			c.Results = vgen.Results(t, "rs", 1, 8, vgen.ResultOpts{})
+		}
+		sig, _ := json.Marshal(c)
+		vh.Case("C08.detectcmd", string(sig), c.Kind != "garbage", c.Kind)
+		if len(sig) < 1000 {
+			vh.Sample("C08.detectcmd", c.Kind != "garbage", c)
+		}
+		if err := runC08DetectCmd(c); err != nil {
+			vh.Fail(t, "C08", "C08.detectcmd", c, err)
+		}
+	})
+}
+
+func init() {
+	vh.RegisterReplay("C08.chain", vh.Replayer(runC08Chain))
+	vh.RegisterReplay("C08.detectcmd", vh.Replayer(runC08DetectCmd))
+}
